@@ -1,5 +1,6 @@
 //! stream `negotiate` — C25: the two real handshake responders on generated version-table pairs.
-//!   n1 ours <v:magic:flag>* theirs <v:magic:flag>*   pallas-network `handshake::Server::handshake` over a real
+//!   entry = v:magic:initiatorOnly:peerSharing:query (decimal; v, magic over the full u64 range; peerSharing 256 = None, query 2 = None)
+//!   n1 ours <entry>* theirs <entry>*                 pallas-network `handshake::Server::handshake` over a real
 //!        multiplexer: the peer writes `Propose(theirs)`, the server runs `handshake(ours)`, the reply is
 //!        read off the wire
 //!   n2 ours … theirs …                               pallas-network2 `HandshakeResponder` (through
@@ -24,15 +25,15 @@ use std::time::Duration;
 pub const NAME: &str = "negotiate";
 
 #[derive(Clone, Copy, PartialEq, Debug)]
-struct Ent { v: u64, magic: u64, flag: u64 }
+struct Ent { v: u64, magic: u64, init: u64, ps: u64, q: u64 }
 
 fn parse(op: &[String]) -> Option<(Vec<Ent>, Vec<Ent>)> {
     if op.get(1).map(|s| s.as_str()) != Some("ours") { return None; }
     let split = op.iter().position(|s| s == "theirs")?;
     let ent = |s: &String| -> Option<Ent> {
         let p: Vec<&str> = s.split(':').collect();
-        if p.len() != 3 { return None; }
-        Some(Ent { v: p[0].parse().ok()?, magic: p[1].parse().ok()?, flag: p[2].parse().ok()? })
+        if p.len() != 5 { return None; }
+        Some(Ent { v: p[0].parse().ok()?, magic: p[1].parse().ok()?, init: p[2].parse().ok()?, ps: p[3].parse().ok()?, q: p[4].parse().ok()? })
     };
     let ours: Option<Vec<Ent>> = op[2..split].iter().map(ent).collect();
     let theirs: Option<Vec<Ent>> = op[split + 1..].iter().map(ent).collect();
@@ -40,32 +41,35 @@ fn parse(op: &[String]) -> Option<(Vec<Ent>, Vec<Ent>)> {
 }
 
 #[derive(Debug, PartialEq)]
-enum Reply { Accept(u64, u64, u64), Refused(u64), Mismatch(Vec<u64>), Other(String) }
+enum Reply { Accept(u64, Ent), Refused(u64), Mismatch(Vec<u64>), Other(String) }
 
 // ------------------------------------------------------------------------------------------ stack 1
-fn vd1(e: &Ent) -> hs1::n2c::VersionData { hs1::n2c::VersionData::new(e.magic, match e.flag { 0 => Some(false), 1 => Some(true), _ => None }) }
-fn table1(es: &[Ent]) -> hs1::VersionTable<hs1::n2c::VersionData> { hs1::VersionTable { values: es.iter().map(|e| (e.v, vd1(e))).collect::<HashMap<_, _>>() } }
+fn opt_ps(e: &Ent) -> Option<u8> { if e.ps >= 256 { None } else { Some(e.ps as u8) } }
+fn opt_q(e: &Ent) -> Option<bool> { match e.q { 0 => Some(false), 1 => Some(true), _ => None } }
+/// stack 1 is generic in the version data; the N2N data has all four compared fields
+fn vd1(e: &Ent) -> hs1::n2n::VersionData { hs1::n2n::VersionData::new(e.magic, e.init == 1, opt_ps(e), opt_q(e)) }
+fn ent1(v: u64, d: &hs1::n2n::VersionData) -> Ent {
+    Ent { v, magic: d.network_magic, init: d.initiator_only_diffusion_mode as u64, ps: d.peer_sharing.map_or(256, |x| x as u64), q: d.query.map_or(2, |x| x as u64) }
+}
+fn table1(es: &[Ent]) -> hs1::VersionTable<hs1::n2n::VersionData> { hs1::VersionTable { values: es.iter().map(|e| (e.v, vd1(e))).collect::<HashMap<_, _>>() } }
 
 async fn run_n1(ours: &[Ent], theirs: &[Ent]) -> Result<(Reply, Option<u64>), String> {
     let (a, b) = tokio::net::UnixStream::pair().map_err(|e| e.to_string())?;
     let mut plexer = Plexer::new(Bearer::Unix(a));
     let ch = plexer.subscribe_server(0);
-    let mut server: hs1::Server<hs1::n2c::VersionData> = hs1::Server::new(ch);
+    let mut server: hs1::Server<hs1::n2n::VersionData> = hs1::Server::new(ch);
     let _running = plexer.spawn();
     let (r, w) = Bearer::Unix(b).into_split();
     let (mut demux, mut mux) = (Demuxer::new(r), Muxer::new(w));
-    let propose: hs1::Message<hs1::n2c::VersionData> = hs1::Message::Propose(table1(theirs));
+    let propose: hs1::Message<hs1::n2n::VersionData> = hs1::Message::Propose(table1(theirs));
     mux.mux((0, minicbor::to_vec(&propose).map_err(|e| e.to_string())?)).await.map_err(|_| "mux".to_string())?;
     let ret = tokio::time::timeout(Duration::from_secs(5), server.handshake(table1(ours))).await.map_err(|_| "timeout".to_string())?
         .map_err(|e| format!("{e:?}"))?;
     let (_, payload) = tokio::time::timeout(Duration::from_secs(5), demux.read_segment()).await.map_err(|_| "no-reply".to_string())?
         .map_err(|_| "read".to_string())?;
-    let msg: hs1::Message<hs1::n2c::VersionData> = minicbor::decode(&payload).map_err(|e| e.to_string())?;
+    let msg: hs1::Message<hs1::n2n::VersionData> = minicbor::decode(&payload).map_err(|e| e.to_string())?;
     let reply = match msg {
-        hs1::Message::Accept(v, d) => {
-            // recover (magic, flag) by comparing with the entries of either table
-            match ours.iter().chain(theirs.iter()).find(|e| vd1(e) == d) { Some(e) => Reply::Accept(v, e.magic, e.flag), None => Reply::Other("accept-unknown-data".into()) }
-        }
+        hs1::Message::Accept(v, d) => Reply::Accept(v, ent1(v, &d)),
         hs1::Message::Refuse(hs1::RefuseReason::Refused(v, _)) => Reply::Refused(v),
         hs1::Message::Refuse(hs1::RefuseReason::VersionMismatch(l)) => Reply::Mismatch(l),
         other => Reply::Other(format!("{other:?}").chars().take(20).collect()),
@@ -75,7 +79,10 @@ async fn run_n1(ours: &[Ent], theirs: &[Ent]) -> Result<(Reply, Option<u64>), St
 
 // ------------------------------------------------------------------------------------------ stack 2
 fn vd2(e: &Ent) -> hs2::n2n::VersionData {
-    hs2::n2n::VersionData { network_magic: e.magic, initiator_only_diffusion_mode: e.flag % 2 == 1, peer_sharing: Some((e.flag / 2 % 2) as u8), query: Some(false) }
+    hs2::n2n::VersionData { network_magic: e.magic, initiator_only_diffusion_mode: e.init == 1, peer_sharing: opt_ps(e), query: opt_q(e) }
+}
+fn ent2(v: u64, d: &hs2::n2n::VersionData) -> Ent {
+    Ent { v, magic: d.network_magic, init: d.initiator_only_diffusion_mode as u64, ps: d.peer_sharing.map_or(256, |x| x as u64), q: d.query.map_or(2, |x| x as u64) }
 }
 fn table2(es: &[Ent]) -> hs2::VersionTable<hs2::n2n::VersionData> { hs2::VersionTable { values: es.iter().map(|e| (e.v, vd2(e))).collect::<HashMap<_, _>>() } }
 
@@ -92,7 +99,7 @@ fn run_n2(ours: &[Ent], theirs: &[Ent]) -> Result<(Reply, bool), String> {
         if let BehaviorOutput::InterfaceCommand(InterfaceCommand::Send(_, AnyMessage::Handshake(m))) = o {
             n += 1;
             reply = Some(match m {
-                hs2::Message::Accept(v, d) => match ours.iter().chain(theirs.iter()).find(|e| vd2(e) == d) { Some(e) => Reply::Accept(v, e.magic, e.flag), None => Reply::Other("accept-unknown-data".into()) },
+                hs2::Message::Accept(v, d) => Reply::Accept(v, ent2(v, &d)),
                 hs2::Message::Refuse(hs2::RefuseReason::Refused(v, _)) => Reply::Refused(v),
                 hs2::Message::Refuse(hs2::RefuseReason::VersionMismatch(mut l)) => { l.sort(); Reply::Mismatch(l) }
                 other => Reply::Other(format!("{other:?}").chars().take(20).collect()),
@@ -106,17 +113,18 @@ fn run_n2(ours: &[Ent], theirs: &[Ent]) -> Result<(Reply, bool), String> {
 // ------------------------------------------------------------------------------------------ oracle
 fn oracle(tag: &str, ours: &[Ent], theirs: &[Ent], reply: &Reply, out: &mut Out) {
     let common: Vec<u64> = ours.iter().map(|e| e.v).filter(|v| theirs.iter().any(|t| t.v == *v)).collect();
-    let detail = format!("ours={:?} theirs={:?} reply={:?}", ours.iter().map(|e| (e.v, e.magic, e.flag)).collect::<Vec<_>>(),
-                         theirs.iter().map(|e| (e.v, e.magic, e.flag)).collect::<Vec<_>>(), reply);
+    let detail = format!("ours={:?} theirs={:?} reply={:?}", ours.iter().map(|e| (e.v, e.magic, e.init, e.ps, e.q)).collect::<Vec<_>>(),
+                         theirs.iter().map(|e| (e.v, e.magic, e.init, e.ps, e.q)).collect::<Vec<_>>(), reply);
     match reply {
-        Reply::Accept(v, m, f) => {
+        Reply::Accept(v, d) => {
             let o = ours.iter().find(|e| e.v == *v);
             let t = theirs.iter().find(|e| e.v == *v);
             match (o, t) {
                 (Some(o), Some(t)) => {
                     if common.iter().any(|w| w > v) { out.viol(format!("{tag}-accept-not-highest"), &detail); }
                     if o.magic != t.magic { out.viol(format!("{tag}-accept-magic-differs"), &detail); }
-                    if (o.magic, o.flag) != (*m, *f) { out.viol(format!("{tag}-accept-foreign-data"), &detail); }
+                    // the 64-bit values themselves are compared here: u64 `!=`, nothing narrower
+                    if (o.magic, o.init, o.ps, o.q) != (d.magic, d.init, d.ps, d.q) { out.viol(format!("{tag}-accept-foreign-data"), &detail); }
                 }
                 _ => out.viol(format!("{tag}-accept-version-not-common"), &detail),
             }
@@ -134,7 +142,7 @@ fn oracle(tag: &str, ours: &[Ent], theirs: &[Ent], reply: &Reply, out: &mut Out)
 
 fn show(r: &Reply) -> String {
     match r {
-        Reply::Accept(v, m, f) => format!("ok accept {v} {m}:{f}"),
+        Reply::Accept(v, d) => format!("ok accept {v} {}:{}:{}:{}", d.magic, d.init, d.ps, d.q),
         Reply::Refused(v) => format!("ok refused {v}"),
         Reply::Mismatch(l) => format!("ok mismatch [{}]", l.iter().map(|v| v.to_string()).collect::<Vec<_>>().join(" ")),
         Reply::Other(s) => format!("err {s}"),
@@ -142,43 +150,84 @@ fn show(r: &Reply) -> String {
 }
 
 // ------------------------------------------------------------------------------------------ generator
+const MAGICS: [u64; 6] = [764824073, 1, 2, 1097911063, 0, 4];
+
+/// a value that agrees with `m` in its low 8 / 16 / 32 / 63 bits and differs above (every plausible narrowing)
+fn collide(g: &mut Gen, m: u64) -> u64 {
+    match g.rng.below(7) {
+        0 => m.wrapping_add(1 << 32),
+        1 => m.wrapping_add(1 << 16),
+        2 => m.wrapping_add(1 << 8),
+        3 => m ^ (1 << 63),
+        4 => m.wrapping_add(g.rng.range(1, 0xffff_ffff) << 32),
+        5 => m ^ (1 << 31) ^ (1 << 47),
+        _ => m.wrapping_add(3 << 40),
+    }
+}
+
+/// version numbers: small ones, the real N2N/N2C numbers, and numbers that collide with them under u8/u16/u32 narrowing
+fn version_pool(g: &mut Gen) -> (Vec<u64>, Vec<u64>) {
+    let lift = |xs: &[u64]| -> Vec<u64> {
+        let mut v = xs.to_vec();
+        for x in xs { v.extend([x + (1 << 8), x + (1 << 16), x + (1 << 32), x | (1 << 63)]); }
+        v
+    };
+    match g.rng.below(7) {
+        0 => ((1..=16).collect(), (17..=32).collect()),                                   // disjoint
+        1 => ((7..=20).collect(), (7..=20).collect()),                                    // same pool
+        2 => (vec![0, 1, 23, 24, 255, 256, 65535, 65536, 32783, 32784, u32::MAX as u64, 1 << 32, (1 << 63) - 1, 1 << 63, u64::MAX],
+              vec![0, 24, 256, 65536, 32784, u64::MAX, 5, 1 << 32, 1 << 63]),
+        3 => ((1..=8).collect(), (5..=12).collect()),
+        4 => (lift(&[11, 12, 13, 14]), lift(&[12, 13, 14, 15])),                          // 13, 13+2^8, 13+2^16, 13+2^32, 13|2^63 side by side
+        5 => (vec![13, 14], vec![13 + (1 << 16), 14 + (1 << 32), 13 + (1 << 8), 14 | (1 << 63)]), // disjoint as u64, equal when narrowed
+        _ => ((10..=14).collect(), (9..=15).collect()),
+    }
+}
+
 fn table(g: &mut Gen, n: usize, pool: &[u64], magics: &[u64]) -> Vec<Ent> {
     let mut vs: Vec<u64> = vec![];
     while vs.len() < n.min(pool.len()) {
         let v = *g.rng.pick(pool);
         if !vs.contains(&v) { vs.push(v); }
     }
-    vs.into_iter().map(|v| Ent { v, magic: *g.rng.pick(magics), flag: g.rng.below(3) }).collect()
+    vs.into_iter().map(|v| {
+        let mut magic = *g.rng.pick(magics);
+        if g.rng.chance(1, 5) { magic = match g.rng.below(4) { 0 => u64::MAX, 1 => collide(g, magic), 2 => u32::MAX as u64, _ => (1 << 32) + magic }; }
+        // (peer sharing, query) both present or both absent: the N2N codec of stack 1 only round-trips those
+        let (ps, q) = if g.rng.chance(3, 4) { (*g.rng.pick(&[0u64, 1, 1, 255]), g.rng.below(2)) } else { (256, 2) };
+        Ent { v, magic, init: g.rng.below(2), ps, q }
+    }).collect()
 }
 
 pub fn generate(g: &mut Gen) {
-    const MAGICS: [u64; 4] = [764824073, 1, 2, 1097911063];
     for i in 0..g.cases {
-        // 0..16 versions each; overlapping pools, disjoint pools, boundary numbers
-        let (pa, pb): (Vec<u64>, Vec<u64>) = match g.rng.below(5) {
-            0 => ((1..=16).collect(), (17..=32).collect()),                                   // disjoint
-            1 => ((7..=20).collect(), (7..=20).collect()),                                    // same pool
-            2 => (vec![0, 1, 23, 24, 255, 256, 65535, 65536, 32783, 32784, u32::MAX as u64, u64::MAX], vec![0, 24, 256, 65536, 32784, u64::MAX, 5]),
-            3 => ((1..=8).collect(), (5..=12).collect()),
-            _ => ((10..=14).collect(), (9..=15).collect()),
-        };
+        let (pa, pb) = version_pool(g);
         let magics: &[u64] = if g.rng.chance(2, 3) { &MAGICS[..1] } else { &MAGICS[..] };
         let na = g.rng.range(0, 16) as usize;
         let nb = g.rng.range(0, 16) as usize;
         let mut ours = table(g, na, &pa, magics);
         let mut theirs = table(g, nb, &pb, magics);
         // often make the common versions agree completely, so that accepts are frequent
-        if g.rng.chance(1, 2) { for t in theirs.iter_mut() { if let Some(o) = ours.iter().find(|o| o.v == t.v) { t.magic = o.magic; t.flag = o.flag; } } }
-        // and sometimes only the highest common one disagree
-        if g.rng.chance(1, 6) {
+        if g.rng.chance(2, 3) { for t in theirs.iter_mut() { if let Some(o) = ours.iter().find(|o| o.v == t.v) { *t = *o; } } }
+        // then spoil only the highest common one, in one field; for the magic mostly by a value that
+        // collides with ours under a narrowing cast (low 8/16/32 bits equal, high bits different)
+        if g.rng.chance(1, 3) {
             if let Some(top) = ours.iter().map(|e| e.v).filter(|v| theirs.iter().any(|t| t.v == *v)).max() {
-                if let Some(t) = theirs.iter_mut().find(|t| t.v == top) { if g.rng.chance(1, 2) { t.magic ^= 1; } else { t.flag = (t.flag + 1) % 3; } }
+                let om = ours.iter().find(|o| o.v == top).unwrap().magic;
+                if let Some(t) = theirs.iter_mut().find(|t| t.v == top) {
+                    match g.rng.below(8) {
+                        0..=3 => t.magic = collide(g, om),
+                        4 => t.magic = om ^ 1,
+                        5 => t.init ^= 1,
+                        6 => { if t.ps < 256 { t.ps = (t.ps + 1) % 256; } else { t.ps = 1; t.q = 0; } }
+                        _ => { if t.q < 2 { t.q ^= 1; } else { t.ps = 0; t.q = 1; } }
+                    }
+                }
             }
         }
         if g.rng.chance(1, 2) { ours.reverse(); theirs.reverse(); }
-        let fmt = |es: &[Ent]| es.iter().map(|e| format!(" {}:{}:{}", e.v, e.magic, e.flag)).collect::<String>();
+        let fmt = |es: &[Ent]| es.iter().map(|e| format!(" {}:{}:{}:{}:{}", e.v, e.magic, e.init, e.ps, e.q)).collect::<String>();
         let stack = if i % 2 == 0 { "n1" } else { "n2" };
-        // stack 2's flag is two bits (initiator-only, peer-sharing); keep it within the model's 0..2
         g.case(vec![format!("{stack} ours{} theirs{}", fmt(&ours), fmt(&theirs))]);
     }
 }
@@ -198,7 +247,7 @@ pub fn run_case(case: &Case, out: &mut Out) {
                     Some(Err(e)) => out.err(e.chars().take(30).collect::<String>().replace(' ', "_")),
                     Some(Ok((reply, ret))) => {
                         oracle("neg1", &ours, &theirs, &reply, out);
-                        let accepted = if let Reply::Accept(v, ..) = &reply { Some(*v) } else { None };
+                        let accepted = if let Reply::Accept(v, _) = &reply { Some(*v) } else { None };
                         if accepted != ret { out.viol("neg1-return-differs-from-wire", format!("returned {:?}, sent {:?}", ret, reply)); }
                         if accepted.is_some() { acc = true; out.cov("n1:accept"); } else { other = true; out.cov(if matches!(reply, Reply::Refused(_)) { "n1:refused" } else { "n1:mismatch" }); }
                         out.reply(show(&reply));
